@@ -25,20 +25,21 @@ struct Spec {
     first_byte_depth: usize,
 }
 
-const DISP_CHOICES: usize = 5;
+const DISP_CHOICES: usize = 7;
 
 fn specs(tier: Tier) -> Vec<Spec> {
     let mut v = Vec::new();
     let lz10_lens = vec![3, 4, 17, 18];
     let lz11_lens: Vec<usize> = match tier {
-        Tier::Quick => vec![3, 4, 16, 17, 18, 272, 273, 274, 4096],
-        Tier::Thorough => vec![3, 4, 16, 17, 18, 272, 273, 274, 4096, 65808],
+        // 4369 = 0x1111: the first length whose 4-byte form has a non-zero top nibble
+        Tier::Quick => vec![3, 4, 16, 17, 18, 272, 273, 274, 4096, 4369],
+        Tier::Thorough => vec![3, 4, 16, 17, 18, 272, 273, 274, 4096, 4369, 65808],
     };
     for &start in &[0usize, 1, 2, 17, 4095, 4096, 4097] {
         let small = start <= 17;
         let (d10, d11) = match (tier, small) {
             (Tier::Quick, true) => (4, 3),
-            (Tier::Quick, false) => (2, 2),
+            (Tier::Quick, false) => (2, 1),
             (Tier::Thorough, true) => (5, 3),
             (Tier::Thorough, false) => (3, 2),
         };
@@ -47,7 +48,7 @@ fn specs(tier: Tier) -> Vec<Spec> {
         if small {
             // deeper sequences over a reduced length alphabet (one length per LZ11 form)
             let d = tier.pick(4, 5);
-            v.push(Spec { tag: format!("lz11r:s{}", start), kind: Kind::Lz11, start, lens: vec![3, 17, 273], depth: d, first_byte_depth: 0 });
+            v.push(Spec { tag: format!("lz11r:s{}", start), kind: Kind::Lz11, start, lens: vec![3, 17, 273, 4369], depth: d, first_byte_depth: 0 });
         }
     }
     v
@@ -94,7 +95,7 @@ fn build_tokens(s: &Spec, choices: &[usize]) -> Option<(Vec<Token>, usize)> {
         } else {
             let li = (c - 1) / DISP_CHOICES;
             let dj = (c - 1) % DISP_CHOICES;
-            let cand: [i64; DISP_CHOICES] = [1, 2, 3, produced as i64 - 1, produced as i64];
+            let cand: [i64; DISP_CHOICES] = [1, 2, 3, produced as i64 - 1, produced as i64, 4095, 4096];
             let d = cand[dj];
             if d < 1 || d as usize > produced.min(4096) {
                 return None;
@@ -464,7 +465,7 @@ fn explore(ctx: &Ctx) -> Outcome {
     tally.sample(json!({"family": "arb", "index": 70000, "hex": util::hex(&arb_nth(70000))}));
     let fam_json: Vec<Value> = fams.iter().map(|f| json!({"family": f.tag, "indices": f.count, "completed": true})).collect();
     let mut o = tally.into_outcome(
-        "token-sequence families: from each start state (0,1,2,17,4095,4096,4097 bytes of literals) ALL sequences up to the stated depth over {literal} ∪ {reference(len, disp)} with the listed lengths and disp ∈ {1,2,3,produced-1,produced}, encoded by the reference encoder and fed to the four decompress entry points; derived from each: every strict prefix, every reference rewritten to point 1/2/4096 bytes before the start, type byte replaced by all 255 other values (short sequences); plus ALL byte strings of length ≤ 2, all strings of length 3..=5 over {00,01,10,11,13,80,FF} and the type-0 stored forms; non-trivial = stream with ≥ 1 reference (or stored form); evaluations count base cases, transitions count decompress calls",
+        "token-sequence families: from each start state (0,1,2,17,4095,4096,4097 bytes of literals) ALL sequences up to the stated depth over {literal} ∪ {reference(len, disp)} with the listed lengths and disp ∈ {1,2,3,produced-1,produced,4095,4096}, encoded by the reference encoder and fed to the four decompress entry points; derived from each: every strict prefix, every reference rewritten to point 1/2/4096 bytes before the start, type byte replaced by all 255 other values (short sequences); plus ALL byte strings of length ≤ 2, all strings of length 3..=5 over {00,01,10,11,13,80,FF} and the type-0 stored forms; non-trivial = stream with ≥ 1 reference (or stored form); evaluations count base cases, transitions count decompress calls",
         true,
         vec![("families", json!(fam_json)), ("worker_respawns", json!(res.respawns)), ("chunks", json!(res.chunks))],
     );
